@@ -466,3 +466,86 @@ def model_vs_impl(chk, comp, glue, inputs, rust_results, shard=2000, imports='Zr
                 mc = (int(mm.group(2)), [int(t) for t in mm.group(3).replace('(', '').replace(')', '').split(';') if t.strip()])
                 dis.append((inputs[s + idx], rust_results[s + idx], mc))
     return dis
+
+
+# --------------------------------------------------------------------------- extracted model (OCaml)
+
+OCAML_DIR = os.path.join(BUILD, 'ocaml')
+
+
+def build_ocaml():
+    """extract the executable models and compile the driver; returns (ok, log).  Cached on the source texts."""
+    with Lock('ocaml'):
+        srcs = sorted(os.path.join(COQ, 'model', f) for f in os.listdir(os.path.join(COQ, 'model')) if f.endswith('.v'))
+        srcs += [os.path.join(COQ, 'extract', 'Extract.v'), os.path.join(VERIF, 'ocaml', 'driver.ml'),
+                 os.path.join(COQ, 'gen', 'Generated.v'), os.path.join(COQ, 'lib', 'RsPrelude.v')]
+        h = hashlib.sha256()
+        for p in srcs:
+            h.update(open(p, 'rb').read())
+        stamp = os.path.join(OCAML_DIR, 'stamp')
+        exe = os.path.join(OCAML_DIR, 'driver')
+        if os.path.exists(exe) and os.path.exists(stamp) and open(stamp).read() == h.hexdigest():
+            return True, 'cached'
+        os.makedirs(OCAML_DIR, exist_ok=True)
+        ok, log, dt = coq_make(['model/FrameDec.vo'])
+        if not ok:
+            return False, log[-1500:]
+        rc, out, err, dt = run(['coqc', '-Q', COQ, 'Zrs', os.path.join(COQ, 'extract', 'Extract.v')], cwd=OCAML_DIR, timeout=600)
+        for junk in ('Extract.vo', 'Extract.glob', 'Extract.vok', 'Extract.vos', '.Extract.aux'):
+            try:
+                os.remove(os.path.join(COQ, 'extract', junk))
+            except OSError:
+                pass
+        if rc != 0:
+            return False, (out + err)[-1500:]
+        shutil.copy(os.path.join(VERIF, 'ocaml', 'driver.ml'), os.path.join(OCAML_DIR, 'driver.ml'))
+        rc, out, err, dt = run(['ocamlfind', 'ocamlopt', '-O3', '-w', '-a', 'model.mli', 'model.ml', 'driver.ml', '-o', 'driver'],
+                               cwd=OCAML_DIR, timeout=600)
+        if rc != 0:
+            return False, (out + err)[-1500:]
+        open(stamp, 'w').write(h.hexdigest())
+        return True, 'built'
+
+
+def model_run(sub, lines, timeout=1800, jobs=12):
+    """run the extracted model on the lines (sharded over processes); returns list of result lines"""
+    exe = os.path.join(OCAML_DIR, 'driver')
+    if not lines:
+        return []
+    import concurrent.futures
+    n = max(1, min(jobs, len(lines) // 4 or 1))
+    chunks = [lines[i::n] for i in range(n)]
+    def work(ch):
+        data = ('\n'.join(ch) + '\n').encode()
+        rc, out, err, dt = run(['bash', '-c', 'ulimit -s unlimited; exec "%s" %s' % (exe, sub)], input=data, timeout=timeout)
+        res = out.split('\n')
+        if res and res[-1] == '':
+            res.pop()
+        return res
+    with concurrent.futures.ThreadPoolExecutor(max_workers=n) as ex:
+        outs = list(ex.map(work, chunks))
+    res = [None] * len(lines)
+    for k, o in enumerate(outs):
+        idxs = list(range(k, len(lines), n))
+        for j, ix in enumerate(idxs):
+            res[ix] = o[j] if j < len(o) else 'missing'
+    return res
+
+
+def zh_par(sub, lines, profile='release', timeout=1800, jobs=12):
+    if not lines:
+        return []
+    import concurrent.futures
+    n = max(1, min(jobs, len(lines) // 4 or 1))
+    chunks = [lines[i::n] for i in range(n)]
+    def work(ch):
+        rc, res, err = zh(sub, ch, profile, timeout)
+        return res
+    with concurrent.futures.ThreadPoolExecutor(max_workers=n) as ex:
+        outs = list(ex.map(work, chunks))
+    res = [None] * len(lines)
+    for k, o in enumerate(outs):
+        idxs = list(range(k, len(lines), n))
+        for j, ix in enumerate(idxs):
+            res[ix] = o[j] if j < len(o) else 'missing'
+    return res
